@@ -117,19 +117,37 @@ def seededJson (env : Env) (s : Schema) : List (String × Json) :=
   let on := check env s true
   [("on", jarr (on.map issueJson)), ("off", jarr ((on.filter (·.sev ≤ sevError)).map issueJson))]
 
+/-- a seed request: one of the ten attribute / node faults, or `dupAt`: one more entry `e` (a full entry: for a
+tag its long name says where it is placed) appended to section `t` -/
+inductive SeedReq
+  | fault (f : Fault)
+  | dup (t : Sec) (e : Entry)
+
+def seedReqOf (j : Json) : Except String SeedReq := do
+  if (← getString j "k") == "dupAt" then
+    pure (.dup (← secOf (← getString j "t")) (← entryOf (← getVal j "e")))
+  else pure (.fault (← faultOf j))
+
+def seedAnswer (env : Env) (s : Schema) : SeedReq → Json
+  | .fault f =>
+    jobj (("adm", jbool (admissible env f s)) :: ("kind", Json.str (reprStr f.kind)) :: seededJson env (seed f s))
+  | .dup t e =>
+    let s' := s.append t e
+    jobj (("adm", jbool (dupAdmissible s t e)) :: ("kind", Json.str "dupAt") ::
+          ("dupCode", jstr (dupCodeOf s' (tagCtx s') t (probeOf t e)).code) :: seededJson env s')
+
 /-- `c14.run`: one schema, its environment, and a list of faults to seed; self-contained -/
 def handle (op : String) (j : Json) : Option (Except String Json) :=
   match op with
   | "c14.run" => some do
     let s ← schemaOf (← getVal j "schema")
     let env ← envOf (← getVal j "env")
-    let seeds ← (← getArr j "seeds").mapM faultOf
+    let seeds ← (← getArr j "seeds").mapM seedReqOf
     pure (jobj [
       ("gen83", jbool (gen83 s)), ("stdRanges", jbool (stdRanges s)), ("compliant", jbool (compliantB env s)),
       ("counts", jarr (secOrder.map fun t => jarr [jnat (s.sec t).length, jnat (visible s t).length])),
       ("base", jobj (resultJson env s)),
-      ("seeds", jarr (seeds.map fun f =>
-        jobj (("adm", jbool (admissible env f s)) :: ("kind", Json.str (reprStr f.kind)) :: seededJson env (seed f s))))])
+      ("seeds", jarr (seeds.map (seedAnswer env s)))])
   | _ => none
 
 end HedVerif.Driver.C14
